@@ -353,14 +353,23 @@ int main() {{
     double refsp[NEQUATIONS] = {{ {refsparr} }};
     n.SetReferenceAbund(refsp, 1);
     rc |= n.Renorm(ab2);
-    fwrite(ab2, sizeof(double), NEQUATIONS, o); fclose(o);
+    fwrite(ab2, sizeof(double), NEQUATIONS, o);
+    /* the python entry point: what PyWrapRenorm hands back is the renormalised state (reference as set last) */
+    std::vector<ssize_t> shape(1, (ssize_t)NEQUATIONS);
+    double ab4[NEQUATIONS] = {{ {abarr} }};
+    pybind11::array_t<double> in(shape, ab4);
+    pybind11::array_t<double> out = n.PyWrapRenorm(in);
+    pybind11::buffer_info bi = out.request();
+    if (bi.size != NEQUATIONS) return 9;
+    fwrite(bi.ptr, sizeof(double), NEQUATIONS, o); fclose(o);
     n.Finalize();
     return rc;
 }}
 """)
         srcs = sorted(str(x.relative_to(d)) for x in (d / "src").glob("*.cpp"))
         extra = [str(VERIF / "cxx" / "stub_cvode.cpp")] if backend != "rosenbrock4" else []
-        cmd = [GXX, "-std=c++17", "-w", "-O0", "-include", str(VERIF / "cxx" / "verif_io.h"), "-I", str(SHIM), "-I", "include", *srcs, *extra, "driver.cpp", "-o", "drv", "-lm"]
+        # built as the python module is built (-DPYMODULE): the class then also carries the PyWrap* entry points
+        cmd = [GXX, "-std=c++17", "-w", "-O0", "-DPYMODULE", "-DPYMODNAME=pymod", "-include", str(VERIF / "cxx" / "verif_io.h"), "-I", str(SHIM), "-I", "include", *srcs, *extra, "driver.cpp", "-o", "drv", "-lm"]
         rc, so, se = runcmd(cmd, cwd=str(d), timeout=600)
         if rc != 0:
             first = next((ln for ln in se.splitlines() if "error" in ln), se[:200])
@@ -368,8 +377,8 @@ int main() {{
         pr = subprocess.run(["./drv"], cwd=str(d), capture_output=True, timeout=120)
         if pr.returncode != 0:
             return 1, [(f"C16:renorm-returns-failure:{backend}", f"{'+'.join(species)} [{backend}]: Renorm returned {pr.returncode}", case)]
-        both = struct.unpack(f"<{3*neq}d", (d / "out.bin").read_bytes())
-        got, got3, got2 = both[:neq], both[neq : 2 * neq], both[2 * neq :]
+        both = struct.unpack(f"<{4*neq}d", (d / "out.bin").read_bytes())
+        got, got3, got2, got4 = both[:neq], both[neq : 2 * neq], both[2 * neq : 3 * neq], both[3 * neq :]
         for sl, e in exp.items():
             if not (abs(got3[sl] - e) <= 1e-9 * max(abs(e), 1e-300)):  # written so that NaN fails
                 return 1, [(f"C16:compiled-renorm-differs:{backend}:second-call", f"{'+'.join(species)} [{backend}]: a second Renorm on the same object (same reference, same input state) gives ab[{sl}] = {got3[sl]!r}, the first call and the exact solution give {e!r}", case)]
@@ -379,6 +388,9 @@ int main() {{
         for sl, e in exp2.items():
             if not (abs(got2[sl] - e) <= 1e-9 * max(abs(e), 1e-300)):  # written so that NaN fails
                 return 1, [(f"C16:compiled-renorm-differs:{backend}:opt1", f"{'+'.join(species)} [{backend}]: SetReferenceAbund(species vector, 1), then Renorm: ab[{sl}] = {got2[sl]!r}, exact solution {e!r}", case)]
+        for sl, e in exp2.items():
+            if not (abs(got4[sl] - e) <= 1e-9 * max(abs(e), 1e-300)):
+                return 1, [(f"C16:compiled-renorm-differs:{backend}:python-entry", f"{'+'.join(species)} [{backend}]: the array PyWrapRenorm returns has ab[{sl}] = {got4[sl]!r} (input {float(ab.get(sl, 0))!r}); Renorm on the same state and reference gives {e!r}", case)]
         return 2, []
     finally:
         shutil.rmtree(d, ignore_errors=True)
